@@ -194,6 +194,41 @@ def run(res):
                     res.violations.append(dict(what='fit did not reject an out-of-domain target with ValueError before any state change', finding=None,
                                                input=dict(link=lname, distribution=dname, y_value=float(val)),
                                                observed=dict(outcome=outcome, state_touched=touched), expected='ValueError, model untouched'))
+    # the domain decision must not depend on how the targets are stored: integer / unsigned / float32 arrays, lists
+    from pygam import LogisticGAM as _LG, PoissonGAM as _PG
+    for lname, lk, dist, good, bad_vals in (('logit', PL.LogitLink(), BinomialDist(levels=1), [0, 1], [2, 3, 200]),
+                                             ('logit(levels=3)', PL.LogitLink(), BinomialDist(levels=3), [0, 1, 2, 3], [4, 9, 255]),
+                                             ('log', PL.LogLink(), NormalDist(), [0, 1, 7], [])):
+        for dt in ('uint8', 'uint16', 'uint32', 'uint64', 'int8', 'int32', 'int64', 'float32', 'float64', 'list'):
+            def store(vals):
+                return [int(v) for v in vals] if dt == 'list' else np.array(vals, dtype=dt)
+            base = [good[i % len(good)] for i in range(12)]
+            for val in [None] + bad_vals:
+                vals = list(base)
+                if val is not None:
+                    vals[rng.randrange(12)] = val
+                try:
+                    check_y(store(vals), lk, dist, verbose=False); rejected = False
+                except ValueError:
+                    rejected = True
+                res.case(('check_y-dtype', lname, dt, val))
+                if rejected != (val is not None):
+                    res.violations.append(dict(what='check_y domain decision depends on the dtype / container of the targets', finding=None,
+                                               input=dict(link=lname, y=vals, stored_as=dt), observed='rejected' if rejected else 'accepted',
+                                               expected='rejected' if val is not None else 'accepted'))
+    for dt in ('uint8', 'uint64', 'int64'):
+        y = np.array([0, 1] * 6, dtype=dt); y[3] = 2
+        gam = _LG()
+        try:
+            gam.fit(X, y); outcome = 'fitted'
+        except ValueError:
+            outcome = 'ValueError'
+        except Exception as e:  # noqa
+            outcome = type(e).__name__
+        res.case(('fit-reject-dtype', dt))
+        if outcome != 'ValueError':
+            res.violations.append(dict(what='LogisticGAM.fit did not reject an out-of-domain target with ValueError before fitting', finding=None,
+                                       input=dict(y=y.tolist(), stored_as=dt), observed=outcome, expected='ValueError'))
     res.extra['interval_goals'] = len(goals)
     res.extra['tolerances'] = {'formulas': '1e-12 relative (+ 1e-12 * (|ln mu| + |ln(levels-mu)|) for the logit link: cancellation)'}
 
